@@ -106,6 +106,32 @@ func init() {
 		numkeys("blmpop", []string{"0"}, []string{"RIGHT"}), numkeys("bzmpop", []string{"0"}, []string{"MAX"}),
 		numkeys("evalsha", []string{"0123456789abcdef0123456789abcdef01234567"}, []string{"arg"}),
 		numkeys("fcall", []string{"myfunc"}, []string{"arg"}),
+		numkeys("fcall_ro", []string{"myfunc"}, []string{"arg"}),
+		// MSETEX numkeys key value [key value …] [NX|XX] [EX s|PX ms|…] (command reference, Redis 8.4)
+		vfc18Tmpl{"msetex", func(r *vfutil.Rand, k func() []byte) ([][]byte, []int) {
+			n := r.Range(1, 3)
+			a := [][]byte{[]byte(strconv.Itoa(n))}
+			var idx []int
+			for i := 0; i < n; i++ {
+				idx = append(idx, len(a))
+				a = append(a, k(), k()) // the value looks like a key
+			}
+			if r.Bool() {
+				a = append(a, []byte("EX"), []byte("10"))
+			}
+			return a, idx
+		}},
+		// CMS.MERGE / TDIGEST.MERGE dest numkeys src…: the modules declare the destination as the only key
+		// (first=last=1), so a cluster node routes and slot-checks by it alone and COMMAND GETKEYS names it alone;
+		// the sources follow as plain arguments (where they live is the module's business, see assumptions)
+		vfc18Tmpl{"cms.merge", func(r *vfutil.Rand, k func() []byte) ([][]byte, []int) {
+			n := r.Range(1, 3)
+			return append([][]byte{k(), []byte(strconv.Itoa(n))}, vfc18KeysN(r, k, n)...), []int{0}
+		}},
+		vfc18Tmpl{"tdigest.merge", func(r *vfutil.Rand, k func() []byte) ([][]byte, []int) {
+			n := r.Range(1, 3)
+			return append([][]byte{k(), []byte(strconv.Itoa(n))}, vfc18KeysN(r, k, n)...), []int{0}
+		}},
 		vfc18Tmpl{"json.mset", func(r *vfutil.Rand, k func() []byte) ([][]byte, []int) {
 			n := r.Range(1, 3)
 			var a [][]byte
@@ -304,7 +330,7 @@ func (w *vfc18World) loopCase(r *vfutil.Rand, mode config.ReplayMode, fbB, fbC s
 	}
 	toks := make([]string, len(txns))
 	for i, t := range txns {
-		toks[i] = vfc18Toks(t.cmds)
+		toks[i] = vfc18RToks(t.cmds)
 	}
 	replay := map[string]interface{}{"mode": string(mode), "fb_builder": fbB, "fb_client": fbC, "inject": inject, "txns": strings.Join(toks, " | ")}
 	nAcc := 0 // accepted prefix: what a correct run delivers before it stops by itself or idles
@@ -322,7 +348,13 @@ func (w *vfc18World) loopCase(r *vfutil.Rand, mode config.ReplayMode, fbB, fbC s
 		}
 		ro := NewRedisOutput(RedisOutputConfig{InputName: "in-1", CheckpointName: w.cp, BisyncEnabled: true, BatchCmdCount: 8,
 			Redis: config.RedisConfig{Type: config.RedisTypeCluster}, ReplayMode: mode, Parallelism: 2, TargetDb: -1})
-		ro.newRedisConn = func(context.Context) (client.Redis, error) {
+		ro.newRedisConn = func(ctx context.Context) (client.Redis, error) {
+			if fbB == "connfail" && ctx.Done() == nil {
+				// the parser's key resolver opens its introspection connection with context.Background()
+				// (the senders pass the replay context): that connection cannot be opened
+				s.Count("loop_introspection_conn_refused")
+				return nil, errors.New("injected: introspection connection refused")
+			}
 			return &vfc18LoopRedis{vfc18Redis: vfc18Redis{c: cl}, fbB: fbB}, nil
 		}
 		_, _, late := w.nodes.takeRun(runID)
@@ -339,8 +371,9 @@ func (w *vfc18World) loopCase(r *vfutil.Rand, mode config.ReplayMode, fbB, fbC s
 			// the fault must hit the block of txns[1]: sync mode, first transaction alone, then arm
 			err, stalled = vfc18LoopRun(ro, w.nodes, runID, vfc18EncodeTxns(txns[:1]), good(1), hard)
 			if !stalled && err == nil {
-				// the pipe was closed on an idle loop: the parser stopped on EOF, and that is what the loop must report
-				s.Violate("parser-stop-reason-lost", "the stream ended and sendAofBisync returned nil instead of the parser's io.EOF", replay)
+				// the pipe was closed on an idle loop and the loop reports a clean end instead of the parser's io.EOF:
+				// not C18's business (counted; a REFUSAL reported as nil is refusal-did-not-stop-replay below)
+				s.Count("loop_eof_reported_as_nil")
 				err = io.EOF
 			}
 			if !stalled && errors.Is(err, io.EOF) {
@@ -509,7 +542,7 @@ func vfc18LoopTxnGen(r *vfutil.Rand, fbB, fbC string, wantAccept bool) vfc18Loop
 
 func (w *vfc18World) loopCases(r *vfutil.Rand, n int) {
 	modes := []config.ReplayMode{config.ReplayModeSync, config.ReplayModePipeline, config.ReplayModeParallel}
-	fbs := []string{"none", "none", "first", "all", "err"}
+	fbs := []string{"none", "none", "first", "all", "err", "connfail"}
 	for i := 0; i < n; i++ {
 		mode := vfutil.Pick(r, modes)
 		fbB := vfutil.Pick(r, fbs)
@@ -542,6 +575,32 @@ func (w *vfc18World) loopCases(r *vfutil.Rand, n int) {
 		txns[bad] = vfc18LoopTxn{cmds: []vfc18Cmd{{Name: "custom.write", Args: [][]byte{[]byte("x{a}"), []byte("y{b}")}, Class: "unknown"}}, builderOK: true}
 		w.loopCase(r, mode, "first", "all", "", txns)
 		w.s.Count("loop_client_crossslot")
+	}
+	// the builder cannot open its introspection connection while the client's COMMAND GETKEYS works: a command
+	// the tables do not know is undetermined for the builder, so the replay must stop there, nothing of it sent
+	for i := 0; i < vfutil.Scale(12, 200); i++ {
+		mode := vfutil.Pick(r, modes)
+		fbC := vfutil.Pick(r, []string{"first", "all"})
+		nt := r.Range(3, 5)
+		bad := r.Range(1, nt-2)
+		txns := make([]vfc18LoopTxn, nt)
+		for j := range txns {
+			for {
+				txns[j] = vfc18LoopTxnGen(r, "connfail", fbC, true)
+				known := true
+				for _, c := range txns[j].cmds {
+					known = known && c.Class == "known"
+				}
+				if known {
+					break
+				}
+			}
+		}
+		tag := vfutil.Pick(r, []string{"a", "t", "user:1"})
+		txns[bad] = vfc18LoopTxn{cmds: []vfc18Cmd{{Name: vfutil.Pick(r, []string{"custom.write", "foo"}),
+			Args: [][]byte{[]byte("x{" + tag + "}"), []byte("v")}[:r.Range(1, 2)], Class: "unknown"}}}
+		w.loopCase(r, mode, "connfail", fbC, "", txns)
+		w.s.Count("loop_builder_connfail")
 	}
 	// faults at the node, sync mode (the block the fault hits must be known)
 	for _, inj := range []string{"crossslot", "execerr", "moved", "ask"} {
@@ -604,72 +663,116 @@ func vfc18TargetKey(replace bool, k []byte) []byte {
 }
 
 // rdbCases: buildBisyncRdbReplayUnit in cluster mode → execBisyncRdbUnit → nodes
+type vfc18RdbCase struct {
+	Replace, Restore, FirstBin, Splited, CanRestore, Expire bool
+	KeyExists                                               string
+	Key                                                     []byte
+	Kind, N                                                 int // N: elements of the value = commands of the expanded unit
+}
+
+func (c vfc18RdbCase) replay() map[string]interface{} {
+	return map[string]interface{}{"rdb": 1, "key": vfutil.Hex(c.Key), "replaceHashTag": c.Replace, "keyExists": c.KeyExists, "restore": c.Restore,
+		"firstBin": c.FirstBin, "splited": c.Splited, "canRestore": c.CanRestore, "expire": c.Expire, "kind": c.Kind, "n": c.N}
+}
+
 func (w *vfc18World) rdbCases(r *vfutil.Rand, n int) {
-	s := w.s
 	tags := [][]byte{[]byte("a"), []byte("user:1"), {0xff, 0x01}, []byte("t")}
 	for i := 0; i < n; i++ {
-		replace := r.Bool()
-		keyExists := vfutil.Pick(r, []string{"replace", "ignore", ""})
-		restore := r.Bool()
-		key := vfc18Key(r, vfutil.Pick(r, tags))
-		if len(key) == 0 {
-			key = []byte("k")
+		c := vfc18RdbCase{Replace: r.Bool(), KeyExists: vfutil.Pick(r, []string{"replace", "ignore", ""}), Restore: r.Bool(),
+			Key: vfc18Key(r, vfutil.Pick(r, tags)), FirstBin: r.Chance(3, 4), Splited: r.Chance(1, 4), Expire: r.Chance(1, 3),
+			Kind: vfutil.Pick(r, []int{rdb.RdbObjectString, rdb.RdbObjectHash, rdb.RdbObjectList, rdb.RdbObjectZSet})}
+		c.CanRestore = c.Restore && r.Bool()
+		if len(c.Key) == 0 {
+			c.Key = []byte("k")
 		}
-		kind := vfutil.Pick(r, []int{rdb.RdbObjectString, rdb.RdbObjectHash, rdb.RdbObjectList, rdb.RdbObjectZSet})
-		p := &vfc18RdbParser{otype: kind, firstBin: r.Chance(3, 4), splited: r.Chance(1, 4), canRestore: restore && r.Bool(), key: key}
-		switch kind {
+		// a value of many elements is expanded into as many commands: one unit, one block all the same
+		switch x := r.Intn(12); {
+		case x < 7:
+			c.N = r.Range(1, 3)
+		case x < 10:
+			c.N = r.Range(4, 64)
+		default:
+			c.N = r.Range(65, 200)
+		}
+		w.rdbCase(c, i)
+	}
+}
+
+func (w *vfc18World) rdbCase(c vfc18RdbCase, i int) {
+	s := w.s
+	key := c.Key
+	p := &vfc18RdbParser{otype: c.Kind, firstBin: c.FirstBin, splited: c.Splited, canRestore: c.CanRestore, key: key}
+	for j := 0; j < c.N; j++ {
+		el := []byte(fmt.Sprintf("e%d", j))
+		switch c.Kind {
 		case rdb.RdbObjectString:
 			p.cmds = [][]interface{}{{"SET", key, []byte("v")}}
 		case rdb.RdbObjectHash:
-			p.cmds = [][]interface{}{{"HSET", key, []byte("f"), []byte("v")}, {"HSET", key, []byte("g"), key}}
-		case rdb.RdbObjectList:
-			p.cmds = [][]interface{}{{"RPUSH", key, []byte("x"), key}}
-		default:
-			p.cmds = [][]interface{}{{"ZADD", key, "1.5", []byte("m")}}
-		}
-		e := &rdb.BinEntry{Key: key, ObjectParser: p}
-		if r.Chance(1, 3) {
-			e.ExpireAt = uint64(time.Now().UnixMilli()) + 100000
-		}
-		ro := NewRedisOutput(RedisOutputConfig{InputName: "in-1", CheckpointName: w.cp, BisyncEnabled: true, BatchCmdCount: 8,
-			Redis: config.RedisConfig{Type: config.RedisTypeCluster, Version: "7.0.0"}, ReplaceHashTag: replace, KeyExists: keyExists,
-			ReplayRdbEnableRestore: restore, MaxProtoBulkLen: 1 << 20, TargetDb: -1})
-		conn := &vfc18Redis{c: w.newCluster("none", 0)}
-		unit, skip, err := ro.buildBisyncRdbReplayUnit(conn, 77, e, newBisyncRdbReplayState())
-		tk := vfc18TargetKey(replace, key)
-		replay := map[string]interface{}{"key": vfutil.Hex(key), "replaceHashTag": replace, "keyExists": keyExists, "restore": restore}
-		rep := "0"
-		if replace {
-			rep = "1"
-		}
-		if err != nil || skip || unit == nil {
-			s.Count("rdb_skip_or_error")
-			continue
-		}
-		s.Op(fmt.Sprintf("c18 rdb 1 %s %s", rep, vfutil.Hex(key)), fmt.Sprintf("%s slot=%d tag=%s", vfutil.Hex(tk), unit.Slot, vfutil.HexS(unit.SlotTag)))
-		s.Count("rdb_unit")
-		want := vfc18HashSlot(tk)
-		if int(unit.Slot) != want {
-			s.Violate("rdb-unit-slot-differs-from-hash-slot", fmt.Sprintf("unit.Slot=%d, HASH_SLOT(target key %q)=%d", unit.Slot, tk, want), replay)
-		}
-		for _, c := range unit.Commands {
-			if len(c.Args) == 0 || !bytes.Equal(c.Args[0], tk) {
-				s.Violate("rdb-command-off-target-key", fmt.Sprintf("command %s is not on the target key %q", c.Cmd, tk), replay)
+			v := el
+			if j == 1 {
+				v = key // a value that looks like a key
 			}
-			w.nodes.register(vfc18Cmd{Name: c.Cmd, Args: c.Args, Truth: []int{0}, Class: "known"})
+			p.cmds = append(p.cmds, []interface{}{"HSET", key, el, v})
+		case rdb.RdbObjectList:
+			p.cmds = append(p.cmds, []interface{}{"RPUSH", key, el, key})
+		default:
+			p.cmds = append(p.cmds, []interface{}{"ZADD", key, "1.5", el})
 		}
-		w.nodes.take()
-		rdbRun := fmt.Sprintf("runid-rdb-%d", i)
-		derr := ro.execBisyncRdbUnit(conn, rdbRun, unit)
-		blocks, stray, _ := w.nodes.takeRun(rdbRun) // lane workers of the last loop case may still be sending
-		if derr != nil {
-			s.Violate("single-slot-unit-refused", "snapshot unit on one key refused: "+derr.Error(), replay)
-			continue
+	}
+	e := &rdb.BinEntry{Key: key, ObjectParser: p}
+	if c.Expire {
+		e.ExpireAt = uint64(time.Now().UnixMilli()) + 100000
+	}
+	ro := NewRedisOutput(RedisOutputConfig{InputName: "in-1", CheckpointName: w.cp, BisyncEnabled: true, BatchCmdCount: 8,
+		Redis: config.RedisConfig{Type: config.RedisTypeCluster, Version: "7.0.0"}, ReplaceHashTag: c.Replace, KeyExists: c.KeyExists,
+		ReplayRdbEnableRestore: c.Restore, MaxProtoBulkLen: 1 << 20, TargetDb: -1})
+	conn := &vfc18Redis{c: w.newCluster("none", 0)}
+	unit, skip, err := ro.buildBisyncRdbReplayUnit(conn, 77, e, newBisyncRdbReplayState())
+	tk := vfc18TargetKey(c.Replace, key)
+	replay := c.replay()
+	rep := "0"
+	if c.Replace {
+		rep = "1"
+	}
+	if err != nil || skip || unit == nil {
+		s.Count("rdb_skip_or_error")
+		return
+	}
+	s.Op(fmt.Sprintf("c18 rdb 1 %s %s", rep, vfutil.Hex(key)), fmt.Sprintf("%s slot=%d tag=%s", vfutil.Hex(tk), unit.Slot, vfutil.HexS(unit.SlotTag)))
+	s.Count("rdb_unit")
+	if len(unit.Commands) > 64 {
+		s.Count("rdb_unit_over_64_commands")
+	}
+	want := vfc18HashSlot(tk)
+	if int(unit.Slot) != want {
+		s.Violate("rdb-unit-slot-differs-from-hash-slot", fmt.Sprintf("unit.Slot=%d, HASH_SLOT(target key %q)=%d", unit.Slot, tk, want), replay)
+	}
+	for _, uc := range unit.Commands {
+		if len(uc.Args) == 0 || !bytes.Equal(uc.Args[0], tk) {
+			s.Violate("rdb-command-off-target-key", fmt.Sprintf("command %s is not on the target key %q", uc.Cmd, tk), replay)
 		}
-		if len(blocks) != 1 || stray != 0 || blocks[0].Rejected != "" || blocks[0].Node != w.ownerIdx(want) ||
-			len(blocks[0].Cmds) != len(unit.Commands)+1 || vfc18HashSlot(blocks[0].Cmds[0][1]) != want {
-			s.Violate("rdb-unit-block", fmt.Sprintf("%d blocks / %d stray; want one block of marker + %d commands at the owner of slot %d", len(blocks), stray, len(unit.Commands), want), replay)
+		w.nodes.register(vfc18Cmd{Name: uc.Cmd, Args: uc.Args, Truth: []int{0}, Class: "known"})
+	}
+	w.nodes.take()
+	rdbRun := fmt.Sprintf("runid-rdb-%d", i)
+	derr := ro.execBisyncRdbUnit(conn, rdbRun, unit)
+	all, stray := w.nodes.take() // synchronous call: everything it sent is here (blocks of other runs: late lane workers of the last loop case)
+	var blocks []vfc18Block
+	for _, b := range all {
+		if b.Run == rdbRun {
+			blocks = append(blocks, b)
+		} else if len(b.Cmds) == 0 || !strings.EqualFold(string(b.Cmds[0][0]), "set") || !checkpoint.IsBisyncMarkerKey(string(b.Cmds[0][1])) {
+			// a block that does not start with a marker is nobody's late unit: the snapshot unit was split
+			s.Violate("rdb-block-without-marker", fmt.Sprintf("a block of %d commands without the marker first reached node %d during a snapshot unit of %d commands: the peer's stream shows it as a foreign transaction", len(b.Cmds), b.Node, len(unit.Commands)), replay)
 		}
+	}
+	if derr != nil {
+		s.Violate("single-slot-unit-refused", "snapshot unit on one key refused: "+derr.Error(), replay)
+		return
+	}
+	if len(blocks) != 1 || stray != 0 || blocks[0].Rejected != "" || blocks[0].Node != w.ownerIdx(want) ||
+		len(blocks[0].Cmds) != len(unit.Commands)+1 || vfc18HashSlot(blocks[0].Cmds[0][1]) != want {
+		s.Violate("rdb-unit-block", fmt.Sprintf("%d blocks / %d stray; want one block of marker + %d commands at the owner of slot %d", len(blocks), stray, len(unit.Commands), want), replay)
 	}
 }
 
